@@ -191,6 +191,8 @@ func (v *Verifier) structural(cfg PropConfig, sc StructuralCheck) []StructResult
 		sort.Strings(bad)
 		return []StructResult{{Name: name, Kind: "refine", Text: fmt.Sprintf("every implementer of %s.%s in the module is verified against the interface contract %s", a.Iface, a.Method, a.Contract),
 			Detail: fmt.Sprintf("%d implementers; %s", n, strings.Join(uniq(bad), "; ")), OK: len(bad) == 0 && n > 0}}
+	case "typestate":
+		return v.typestate(cfg, sc)
 	case "callers_subset":
 		var a struct {
 			Callee  string   `json:"callee"`
